@@ -24,6 +24,40 @@ theorem all_uncounted_of_counter_zero {s : State} (hi : Inv s) (h : s.counter = 
   · exact cnt_zero (by rw [← hi.counter]; exact h) c hc
   · exact uncounted_of_absent hi hc
 
+theorem ctxDone_isSome (x : SCall) (w : Why) : (ctxDone x w).done.isSome = true := by
+  unfold ctxDone; split <;> simp
+
+/-- the record of a call changes in its context only, and the context stays done if it was -/
+theorem inv_shut_ctx {s : State} {k : CallId} {x : SCall} (hi : Inv s) (hpc : x.pc = (s.shuts k).pc)
+    (hd : x.done.isSome = true) : Inv (setShut s k x) := by
+  have key : ∀ j, ((setShut s k x).shuts j).pc = (s.shuts j).pc := by
+    intro j; simp only [setShut]; split
+    · rename_i hj; rw [hj, hpc]
+    · rfl
+  obtain ⟨h1, h2, h3, h4, h5, h6, h7, h8, h9, h10, h11, h12, h13, h14, h15, h16⟩ := hi
+  refine ⟨h1, h2, h3, h4, ?_, h6, ?_, h8, h9, h10, h11, ?_, ?_, ?_, h15, h16⟩
+  · intro j; rw [key j]; exact h5 j
+  · intro j; rw [key j]; exact h7 j
+  · intro j; rw [key j]; exact h12 j
+  · intro j; rw [key j]; exact h13 j
+  · intro j hj
+    rw [key j] at hj
+    have := h14 j hj
+    simp only [setShut]
+    split
+    · exact hd
+    · exact this
+
+/-- the clauses of call `k` of Shutdown after one of its steps, from its clauses before -/
+macro "sinv_auto " hi:ident k:ident : tactic =>
+  `(tactic| (obtain ⟨a1, a2, a3, a4, a5⟩ := Inv.sinv $hi $k
+             constructor <;> simp_all [shutHolds, shutClosed]))
+
+/-- the clauses of call `k` of Close after one of its steps, from its clauses before -/
+macro "cinv_auto " hi:ident k:ident : tactic =>
+  `(tactic| (obtain ⟨a1, a2, a3, a4⟩ := Inv.cinv $hi $k
+             constructor <;> simp_all [closeHolds, closeClosed, closeSwept]))
+
 theorem inv_step {s s' : State} (a : Action) (hi : Inv s) (h : step s a = some s') : Inv s' := by
   cases a with
   | conn c a => exact inv_conn hi h
@@ -128,37 +162,46 @@ theorem inv_step {s s' : State} (a : Action) (hi : Inv s) (h : step s a = some s
     split
     · exact inv_closeListener hi
     · exact hi
-  | shutdownCall =>
+  | shutdownCall k nl cb =>
     simp only [step] at h
     split at h
     · rename_i hg; cases h
-      obtain ⟨h1, h2, h3, h4, h5, h6, h7, h8, h9, h10, h11, h12, h13, h14, h15⟩ := hi
-      constructor <;> simp_all [shutHolds, shutClosed]
+      exact inv_ghost (inv_shutStep (l := s.lock) (cl := s.closing) hi (Or.inl rfl) (Or.inl rfl)
+        (by sinv_auto hi k)) s.runShut s.runClose true s.everClosed
     · simp at h
-  | shutdownRet n =>
+  | shutdownRet k r =>
+    simp only [step] at h
+    split at h
+    · split at h
+      · cases h; exact hi
+      · simp at h
+    · split at h
+      · cases h; exact hi
+      · simp at h
+  | closeCall k =>
+    simp only [step] at h
+    split at h
+    · rename_i hg; cases h
+      exact inv_ghost (inv_closeStep (l := s.lock) (cl := s.closing) (sw := s.sweepLeft) hi (Or.inl rfl) (Or.inl rfl)
+        (Or.inl rfl) (by cinv_auto hi k)) s.runShut s.runClose true s.everClosed
+    · simp at h
+  | closeRet k =>
     simp only [step] at h
     split at h
     · cases h; exact hi
     · simp at h
-  | closeCall =>
+  | ctxExpire k =>
     simp only [step] at h
     split at h
     · rename_i hg; cases h
-      obtain ⟨h1, h2, h3, h4, h5, h6, h7, h8, h9, h10, h11, h12, h13, h14, h15⟩ := hi
-      constructor <;> simp_all [closeHolds, closeClosed, closeSwept]
+      exact inv_shut_ctx hi rfl (ctxDone_isSome (s.shuts k) .deadline)
     · simp at h
-  | closeRet =>
+  | ctxCancel k =>
     simp only [step] at h
     split at h
-    · cases h; exact hi
+    · rename_i hg; cases h
+      exact inv_shut_ctx hi rfl (ctxDone_isSome (s.shuts k) .cancel)
     · simp at h
-  | ctxExpire =>
-    simp only [step] at h
-    split at h
-    · simp at h
-    · cases h
-      obtain ⟨h1, h2, h3, h4, h5, h6, h7, h8, h9, h10, h11, h12, h13, h14, h15⟩ := hi
-      constructor <;> simp_all
   | cancel =>
     simp only [step] at h
     split at h
@@ -199,79 +242,66 @@ theorem inv_step {s s' : State} (a : Action) (hi : Inv s) (h : step s a = some s
           simp [this, hi.absent d hd]
       exact inv_irrelevant this s.listenerOpen .checking s.runner
     · simp at h
-  | shutLock =>
+  | shutLock k =>
     simp only [step] at h
     split at h
     · rename_i hg; cases h
-      have hno := no_holder_of_lock hi (by rw [hg.2]; intro c; simp)
-      obtain ⟨h1, h2, h3, h4, h5, h6, h7, h8, h9, h10, h11, h12, h13, h14, h15⟩ := hi
-      constructor <;> simp_all [shutHolds, shutClosed]
+      exact inv_shutStep (cl := s.closing) hi (Or.inr (Or.inl ⟨hg.2, rfl⟩)) (Or.inl rfl) (by sinv_auto hi k)
     · simp at h
-  | shutCloseCh =>
+  | shutCloseCh k =>
     simp only [step] at h
     split at h
     · rename_i hg; cases h
-      have hloc : ∀ c, Local true (s.conns c) := fun c => (hi.loc c).toTrue
-      obtain ⟨h1, h2, h3, h4, h5, h6, h7, h8, h9, h10, h11, h12, h13, h14, h15⟩ := hi
-      constructor <;> simp_all [shutHolds, shutClosed]
+      exact inv_shutStep (l := s.lock) hi (Or.inl rfl) (Or.inr rfl) (by sinv_auto hi k)
     · simp at h
-  | shutPoll =>
+  | shutPoll k =>
     simp only [step] at h
     split at h
     · rename_i hg; cases h
       by_cases h0 : s.counter = 0
       · have hun := all_uncounted_of_counter_zero hi h0
-        obtain ⟨h1, h2, h3, h4, h5, h6, h7, h8, h9, h10, h11, h12, h13, h14, h15⟩ := hi
-        constructor <;> simp_all [shutHolds, shutClosed]
-      · obtain ⟨h1, h2, h3, h4, h5, h6, h7, h8, h9, h10, h11, h12, h13, h14, h15⟩ := hi
-        constructor <;> simp_all [shutHolds, shutClosed]
+        exact inv_shutStep (l := s.lock) (cl := s.closing) hi (Or.inl rfl) (Or.inl rfl) (by sinv_auto hi k)
+      · exact inv_shutStep (l := s.lock) (cl := s.closing) hi (Or.inl rfl) (Or.inl rfl) (by sinv_auto hi k)
     · simp at h
-  | shutTimer =>
+  | shutTimer k =>
     simp only [step] at h
     split at h
     · rename_i hg; cases h
-      obtain ⟨h1, h2, h3, h4, h5, h6, h7, h8, h9, h10, h11, h12, h13, h14, h15⟩ := hi
-      constructor <;> simp_all [shutHolds, shutClosed]
+      exact inv_shutStep (l := s.lock) (cl := s.closing) hi (Or.inl rfl) (Or.inl rfl) (by sinv_auto hi k)
     · simp at h
-  | shutCtx =>
+  | shutCtx k =>
     simp only [step] at h
     split at h
     · rename_i hg; cases h
-      obtain ⟨h1, h2, h3, h4, h5, h6, h7, h8, h9, h10, h11, h12, h13, h14, h15⟩ := hi
-      constructor <;> simp_all [shutHolds, shutClosed]
+      exact inv_shutStep (l := s.lock) (cl := s.closing) hi (Or.inl rfl) (Or.inl rfl) (by sinv_auto hi k)
     · simp at h
-  | shutUnlock =>
+  | shutUnlock k =>
     simp only [step] at h
     split at h
     · rename_i hg; cases h
-      have hlk : s.lock = .shutdown := hi.lockShut.mpr (by simp [hg, shutHolds])
-      have hno := no_holder_of_lock hi (by rw [hlk]; intro c; simp)
-      obtain ⟨h1, h2, h3, h4, h5, h6, h7, h8, h9, h10, h11, h12, h13, h14, h15⟩ := hi
-      constructor <;> simp_all [shutHolds, shutClosed]
+      have hlk : s.lock = .shutdown k := (hi.lockShut k).mpr (by simp [hg, shutHolds])
+      exact inv_shutStep (cl := s.closing) hi (Or.inr (Or.inr ⟨hlk, rfl⟩)) (Or.inl rfl) (by sinv_auto hi k)
     · split at h
       · rename_i hg; cases h
-        have hlk : s.lock = .shutdown := hi.lockShut.mpr (by simp [hg, shutHolds])
-        have hno := no_holder_of_lock hi (by rw [hlk]; intro c; simp)
-        obtain ⟨h1, h2, h3, h4, h5, h6, h7, h8, h9, h10, h11, h12, h13, h14, h15⟩ := hi
-        constructor <;> simp_all [shutHolds, shutClosed]
+        have hlk : s.lock = .shutdown k := (hi.lockShut k).mpr (by simp [hg, shutHolds])
+        exact inv_shutStep (cl := s.closing) hi (Or.inr (Or.inr ⟨hlk, rfl⟩)) (Or.inl rfl) (by sinv_auto hi k)
       · simp at h
-  | closeLock =>
+  | closeLock k =>
     simp only [step] at h
     split at h
     · rename_i hg; cases h
-      have hno := no_holder_of_lock hi (by rw [hg.2]; intro c; simp)
-      obtain ⟨h1, h2, h3, h4, h5, h6, h7, h8, h9, h10, h11, h12, h13, h14, h15⟩ := hi
-      constructor <;> simp_all [closeHolds, closeClosed, closeSwept]
+      exact inv_closeStep (cl := s.closing) (sw := s.sweepLeft) hi (Or.inr (Or.inl ⟨hg.2, rfl⟩)) (Or.inl rfl)
+        (Or.inl rfl) (by cinv_auto hi k)
     · simp at h
-  | closeCloseCh =>
+  | closeCloseCh k =>
     simp only [step] at h
     split at h
     · rename_i hg; cases h
-      have hloc : ∀ c, Local true (s.conns c) := fun c => (hi.loc c).toTrue
-      obtain ⟨h1, h2, h3, h4, h5, h6, h7, h8, h9, h10, h11, h12, h13, h14, h15⟩ := hi
-      constructor <;> simp_all [closeHolds, closeClosed, closeSwept]
+      have hlk : s.lock = .closer k := (hi.lockClose k).mpr (by simp [hg, closeHolds])
+      exact inv_ghost (inv_closeStep (l := s.lock) (sw := s.registered) hi (Or.inl rfl) (Or.inr rfl) (Or.inr hlk)
+        (by cinv_auto hi k)) s.runShut s.runClose s.api true
     · simp at h
-  | closeConn c =>
+  | closeConn k c =>
     simp only [step] at h
     split at h
     · rename_i hg; cases h
@@ -279,55 +309,46 @@ theorem inv_step {s s' : State} (a : Action) (hi : Inv s) (h : step s a = some s
       have hi' : Inv (setConn s c { s.conns c with sockClosed := true }) :=
         inv_setConn hi hg.2.2 rfl rfl (fun _ => rfl)
           (by obtain ⟨h1, h2, h3, h4, h5, h6, h7⟩ := hl; constructor <;> simp_all)
-      obtain ⟨h1, h2, h3, h4, h5, h6, h7, h8, h9, h10, h11, h12, h13, h14, h15⟩ := hi'
-      refine ⟨h1, h2, h3, h4, h5, h6, h7, h8, h9, h10, h11, h12, h13, h14, ?_⟩
-      intro hs d hd
+      obtain ⟨h1, h2, h3, h4, h5, h6, h7, h8, h9, h10, h11, h12, h13, h14, h15, h16⟩ := hi'
+      refine ⟨h1, h2, h3, h4, h5, h6, h7, h8, h9, h10, h11, h12, h13, h14, h15, ?_⟩
+      intro j hs d hd
       show d ∈ s.sweepLeft.erase c ∨ _
       by_cases hdc : d = c
       · subst hdc; right; simp [setConn]
-      · rcases h15 hs d hd with h | h
+      · rcases h16 j hs d hd with h | h
         · exact Or.inl ((List.mem_erase_of_ne hdc).mpr h)
         · exact Or.inr h
     · simp at h
-  | closeAll =>
+  | closeAll k =>
     simp only [step] at h
     split at h
     · rename_i hg; cases h
       have hreg := hi.reg
       have hlocs := hi.loc
-      have hsw := hi.sweep hg.1
-      obtain ⟨h1, h2, h3, h4, h5, h6, h7, h8, h9, h10, h11, h12, h13, h14, h15⟩ := hi
-      refine ⟨h1, h2, h3, h4, h5, ?_, ?_, h8, h9, h10, h11, h12, h13, ?_, ?_⟩
-      · show s.lock = .closer ↔ closeHolds .closedConns = true
-        rw [hg.1] at h6
-        simpa [closeHolds] using h6
-      · show s.closing = (shutClosed s.shut || closeClosed .closedConns)
-        rw [hg.1] at h7
-        simpa [closeClosed] using h7
-      · intro _ c hc
-        show (s.conns c).sockClosed = true ∨ _
+      have hsw := hi.sweep k hg.1
+      have hall : ∀ c, preReg (s.conns c).pc = false → (s.conns c).sockClosed = true := by
+        intro c hc
         by_cases hr : c ∈ s.registered
         · rcases hsw c hr with h | h
           · rw [hg.2] at h; cases h
-          · exact Or.inl h
-        · left
-          apply (hlocs c).closed
+          · exact h
+        · apply (hlocs c).closed
           have hm : inMap (s.conns c).pc = false := by
             cases hh : inMap (s.conns c).pc with
             | false => rfl
             | true => exact absurd ((hreg c).mpr hh) hr
           revert hm hc
           cases (s.conns c).pc <;> simp [inMap, counted, preReg, pastDec]
-      · intro hs; cases hs
+      exact inv_closeStep (l := s.lock) (cl := s.closing) (sw := s.sweepLeft) hi (Or.inl rfl) (Or.inl rfl)
+        (Or.inl rfl) (by cinv_auto hi k)
     · simp at h
-  | closeUnlock =>
+  | closeUnlock k =>
     simp only [step] at h
     split at h
     · rename_i hg; cases h
-      have hlk : s.lock = .closer := hi.lockClose.mpr (by simp [hg, closeHolds])
-      have hno := no_holder_of_lock hi (by rw [hlk]; intro c; simp)
-      obtain ⟨h1, h2, h3, h4, h5, h6, h7, h8, h9, h10, h11, h12, h13, h14, h15⟩ := hi
-      constructor <;> simp_all [closeHolds, closeClosed, closeSwept]
+      have hlk : s.lock = .closer k := (hi.lockClose k).mpr (by simp [hg, closeHolds])
+      exact inv_closeStep (cl := s.closing) (sw := s.sweepLeft) hi (Or.inr (Or.inr ⟨hlk, rfl⟩)) (Or.inl rfl)
+        (Or.inl rfl) (by cinv_auto hi k)
     · simp at h
   | runCloseListeners =>
     simp only [step] at h
@@ -337,21 +358,22 @@ theorem inv_step {s s' : State} (a : Action) (hi : Inv s) (h : step s a = some s
       · exact inv_irrelevant (inv_closeListener hi) _ _ _
       · exact inv_irrelevant hi _ _ _
     · simp at h
-  | runShutdown =>
+  | runShutdown k =>
     simp only [step] at h
     split at h
     · rename_i hg; cases h
-      obtain ⟨h1, h2, h3, h4, h5, h6, h7, h8, h9, h10, h11, h12, h13, h14, h15⟩ := hi
-      constructor <;> simp_all [shutHolds, shutClosed]
+      exact inv_irrelevant (inv_ghost (inv_shutStep (l := s.lock) (cl := s.closing) hi (Or.inl rfl) (Or.inl rfl)
+        (by sinv_auto hi k)) k s.runClose s.api s.everClosed) s.listenerOpen s.serve .inShutdown
     · simp at h
-  | runAfterShutdown =>
+  | runAfterShutdown k =>
     simp only [step] at h
     split at h
     · cases h; exact inv_irrelevant hi _ _ _
     · split at h
       · rename_i hg; cases h
-        obtain ⟨h1, h2, h3, h4, h5, h6, h7, h8, h9, h10, h11, h12, h13, h14, h15⟩ := hi
-        constructor <;> simp_all [closeHolds, closeClosed, closeSwept]
+        exact inv_irrelevant (inv_ghost (inv_closeStep (l := s.lock) (cl := s.closing) (sw := s.sweepLeft) hi
+          (Or.inl rfl) (Or.inl rfl) (Or.inl rfl) (by cinv_auto hi k)) s.runShut k s.api s.everClosed)
+          s.listenerOpen s.serve .inClose
       · simp at h
   | runAfterClose =>
     simp only [step] at h
@@ -361,8 +383,7 @@ theorem inv_step {s s' : State} (a : Action) (hi : Inv s) (h : step s a = some s
 
 theorem inv_reachable {s : State} (h : Reachable s) : Inv s := by
   induction h with
-  | init => exact inv_init
-  | initNoLimit => exact inv_initNoLimit
+  | start nl sg => exact inv_initCfg nl sg
   | step a _ hs ih => exact inv_step a ih hs
 
 end C11
